@@ -775,6 +775,12 @@ func (ds *AnySource) writeControlStart(config *WriteControlConfig) error {
 		return fmt.Errorf("could not make directory: %s", err.Error())
 	}
 
+	// Create the experiment-state file before any channel gets its writers: a START that fails here is
+	// rejected and must leave neither the writing state nor the writers changed.
+	if err = ds.writingState.Start(filenamePattern, path, config); err != nil {
+		return err
+	}
+
 	channelsWithOff := 0
 	for i, dsp := range ds.processors {
 		timebase := 1.0 / dsp.SampleRate
@@ -818,7 +824,7 @@ func (ds *AnySource) writeControlStart(config *WriteControlConfig) error {
 			dsp.DataPublisher.LJH3.Column = colNum
 		}
 	}
-	return ds.writingState.Start(filenamePattern, path, config)
+	return nil
 }
 
 // ComputeWritingState returns a partial copy of the writingState
